@@ -157,6 +157,9 @@ func (s *Session) report(id string, cfg *CheckConfig, dev bool, t0 time.Time, lo
 		}
 		nviol++
 		exit = 1
+		if nviol > 40 {
+			continue // the first 40 violations are written out; the count is in the summary and the evidence
+		}
 		os.MkdirAll(vdir, 0o755)
 		u := failedUnit[i]
 		var rr *ReplayResult
@@ -248,6 +251,7 @@ func (s *Session) report(id string, cfg *CheckConfig, dev bool, t0 time.Time, lo
 	}
 	if len(probes) > 0 {
 		cov["generated_probes"] = probes
+		cov["family_instances"] = s.famCounts
 	}
 	ev := map[string]any{
 		"property_id": id,
